@@ -751,6 +751,37 @@ func (s *c24Speller) FloatArray(a c24ArrSpec, n int, kind int) c24Lit {
 			}
 			continue
 		}
+		if i == special && kind == 3 {
+			// a non-zero element far below the smallest subnormal, in hexadecimal with e/E/other as its first non-zero digit
+			// (in a hexadecimal float e is a digit, not an exponent marker), or in decimal
+			q := f.emin - (f.p - 1)
+			E := q - 2 - s.r.Intn(300)
+			var t string
+			if a.mode == 'x' || s.chance(0.7) {
+				t = s.pick("0.", "0.0", "0.00", "") + s.pick("e", "E", "e8", "E1", "1", "d8", "0e", "ee") + s.pick("", "8", "f0")
+				if !strings.Contains(t, ".") {
+					t = t + "." + s.pick("", "8", "e")
+					if strings.HasSuffix(t, ".") {
+						t += "0"
+					}
+				}
+				t += s.pick("p", "P") + fmt.Sprint(E-8)
+				if a.mode == 0 {
+					t = s.pick("0x", "0X") + t
+				}
+				l.feat("elem.hexfloat")
+			} else {
+				t = fmt.Sprintf("%d.%de-%d", 1+s.r.Intn(9), s.r.Intn(100), 400+s.r.Intn(600))
+				l.feat("elem.decfloat")
+			}
+			if s.chance(0.4) {
+				t = "-" + t
+			}
+			l.feat("elem.float-too-small")
+			elems = append(elems, t)
+			wantOK = false
+			continue
+		}
 		bits := s.floatBits(f)
 		want += le(bits)
 		neg, mant, e2 := c24FloatBitsValue(f, bits)
